@@ -241,6 +241,36 @@ def run_binary(case):
                 c.cmp(f"shape={sa}/same-object/out", "same array object for both arguments, with out=", buf_s, ref_same)
             if not np.array_equal(Ag, A0):
                 c.bad(f"shape={sa}/same-object/inputs", "inputs modified", "modified", "unchanged")
+        # dtypes of the two operands (integer unit vectors / tables next to float data, single next to double precision), in
+        # both orders: the values are those of the operands promoted to their common type
+        if sa == sb:
+            Ai = np.round(3 * Ag).astype(np.int64)
+            Bi = np.round(3 * Bg).astype(np.int64)
+            for dlab, Ad, Bd, tl in (("int-float", Ai, Bg, None), ("float-int", Ag, Bi, None), ("int-int", Ai, Bi, None), ("f32-f64", Ag.astype(np.float32), Bg, 2e-6), ("f64-f32", Ag, Bg.astype(np.float32), 2e-6)):
+                Ad0, Bd0 = Ad.copy(), Bd.copy()
+                try:
+                    gd = _call_binary(fm, name, Ad, Bd)
+                except Exception as e:
+                    if dlab == "int-int":
+                        # (two integer operands: cdya scales its integer result in place by 0.5 and numpy refuses the cast --
+                        #  a loud refusal, no wrong value: observation, not judged)
+                        c.outcomes.add("int-int-rejected:" + fn)
+                        continue
+                    c.bad(f"shape={sa}/dtypes={dlab}", "raised on operands of mixed dtypes", repr(e)[:200], "value")
+                    continue
+                c.trans += 1
+                refd = _ref_binary(name, Ad.astype(float), Bd.astype(float))
+                if tl is None:
+                    c.cmp(f"shape={sa}/dtypes={dlab}", f"{fn}{mode} with operands of different dtypes (values of the promoted operands)", np.asarray(gd, dtype=float), refd)
+                else:
+                    scale_ = max(np.abs(refd).max(), 1e-300)
+                    c.trans += 0
+                    if not np.abs(np.asarray(gd, dtype=float) - refd).max() <= tl * scale_ * 10:
+                        c.bad(f"shape={sa}/dtypes={dlab}", f"{fn}{mode} with single- and double-precision operands", float(np.abs(np.asarray(gd, dtype=float) - refd).max() / scale_), f"<= {tl * 10}")
+                    elif np.asarray(gd).dtype != np.float64:
+                        c.bad(f"shape={sa}/dtypes={dlab}/dtype", "result type of single x double precision operands", str(np.asarray(gd).dtype), "float64")
+                if not (np.array_equal(Ad, Ad0) and np.array_equal(Bd, Bd0) and Ad.dtype == Ad0.dtype and Bd.dtype == Bd0.dtype):
+                    c.bad(f"shape={sa}/dtypes={dlab}/inputs", "inputs modified", "modified", "unchanged")
         # memory layouts of the inputs: Fortran order, reversed-stride view, broadcast view (stride 0) -- same values
         if sa == sb:
             for lay, fA, fB in (("F", np.asfortranarray, np.asfortranarray), ("rev", lambda a: a[..., ::-1][..., ::-1], lambda a: np.ascontiguousarray(a[::-1])[::-1]),
